@@ -76,6 +76,11 @@ func specs(k *bnet.Keys, n, t int, T uint64, thorough bool) []*bnet.ReshareSpec 
 				if !thorough && stagger > 0 && sh.name != "same-set" && sh.name != "remove-first" {
 					continue
 				}
+				if la == T-1 && stagger > 0 {
+					// every member learns the result before the last round of the old group is stored (500 ms before its
+					// time): the real transition time is ten rounds after the DKG's completion, a node cannot learn later
+					stagger = 100 * time.Millisecond
+				}
 				out = append(out, &bnet.ReshareSpec{Name: fmt.Sprintf("%s/learn@r%d/stagger=%v", sh.name, la, stagger), New: nk, Keep: sh.keep,
 					LearnAtRound: la, Stagger: stagger, TransitionRound: T, OldSharePartials: true})
 			}
